@@ -317,6 +317,27 @@ pub fn suspend<R>(f: impl FnOnce() -> R) -> R {
     r
 }
 
+/// Run `f` with the zone switched on (if `active`), restoring the previous state after.
+#[inline]
+pub fn with_zone<R>(active: bool, f: impl FnOnce() -> R) -> R {
+    if !active {
+        return f();
+    }
+    let was = ZONE.swap(true, Ordering::Relaxed);
+    let r = f();
+    ZONE.store(was, Ordering::Relaxed);
+    r
+}
+
+/// Set the plan without switching the zone on.
+pub fn set_plan(seed: u64, reuse: bool, fail_at: Option<u64>) {
+    unsafe {
+        ST.seed = seed;
+        ST.reuse = reuse;
+        ST.fail_at = fail_at.unwrap_or(0);
+    }
+}
+
 pub fn stats() -> Stats {
     unsafe { ST.stats }
 }
